@@ -124,18 +124,19 @@ type Explorer struct {
 	module string
 	sizes  types.Sizes
 
-	mu     sync.Mutex
-	cond   *sync.Cond
-	queue  [][]int
-	active int
-	stop   bool
-	res    *Result
-	viol   map[string][]*Violation
-	incon  map[string]bool
-	funcs  map[string]int
-	exts   map[string]int
-	known  map[string]bool // open known finding ids (for vsymKnown)
-	forks  map[string]int
+	mu      sync.Mutex
+	cond    *sync.Cond
+	queue   [][]int
+	active  int
+	stop    bool
+	res     *Result
+	viol    map[string][]*Violation
+	incon   map[string]bool
+	funcs   map[string]int
+	exts    map[string]int
+	known   map[string]bool // open known finding ids (for vsymKnown)
+	forks   map[string]int
+	started time.Time
 }
 
 // pathCtx is the per-path symbolic state.
